@@ -1,4 +1,5 @@
 import Lemmas.Sim
+import Lemmas.KP
 import Lemmas.Join
 import Lemmas.Prefix
 /-!
@@ -81,16 +82,8 @@ theorem OSGood.nolink' {bk kk m} (hg : OSGood bk kk m) (s : Side) {k t mt} (h : 
 
 /-! ### keys and prefixes -/
 
-theorem PKey.append {a b : Key} (ha : PKey a) (hb : PKey b) : PKey (a ++ b) := by
-  intro n hn
-  rcases List.mem_append.mp hn with h | h
-  · exact ha n h
-  · exact hb n h
-
 theorem PKey.left {a b : Key} (h : PKey (a ++ b)) : PKey a := fun n hn => h n (List.mem_append_left _ hn)
 theorem PKey.right {a b : Key} (h : PKey (a ++ b)) : PKey b := fun n hn => h n (List.mem_append_right _ hn)
-
-theorem PKey.nil : PKey [] := fun n hn => by cases hn
 
 theorem PKey.single {c : Name} (h : Plain c) : PKey [c] := by
   intro n hn
@@ -98,13 +91,8 @@ theorem PKey.single {c : Name} (h : Plain c) : PKey [c] := by
   subst hn
   exact h
 
-theorem PKey.dropLast {k : Key} (h : PKey k) : PKey k.dropLast :=
-  fun n hn => h n (List.dropLast_subset k hn)
-
 theorem PKey.getLast {k : Key} (h : PKey k) (hne : k ≠ []) : Plain (k.getLast hne) :=
   h _ (List.getLast_mem hne)
-
-theorem PKey.nameOK {k : Key} (h : PKey k) : ∀ n ∈ k, NameOK n := fun n hn => ⟨(h n hn).1, (h n hn).2.1⟩
 
 theorem dropLast_append_getLast' {k : Key} (hne : k ≠ []) : k.dropLast ++ [k.getLast hne] = k :=
   List.dropLast_concat_getLast hne
